@@ -504,3 +504,12 @@ def extra_coverage(stats) -> dict:
 
 def after_batch() -> None:
     _aux.clear()
+
+
+# ---- generic framers ----
+# file-based / compressor framers (Lean model GenericFr): adds the case kind "generic" and gives the existing cases whose
+# serializer is a file toy or a zlib/bz2 wrapper a model run (see vlib/genericfr.py, docs/GENERICFR.md)
+from vlib import genericfr as _genericfr  # noqa: E402
+
+_genericfr.install(globals(), "C06")
+# ---- end generic framers ----
